@@ -5,6 +5,8 @@ lists of point effects; rendering of paths and inner keys is injective on well-k
 import Cherab.Model.Repository
 import Std.Data.String.ToInt
 
+set_option linter.unusedSimpArgs false
+
 namespace Cherab.Repository
 
 /-! ## association lists and the file system -/
@@ -766,5 +768,492 @@ theorem update_refines (T : Tables) (hS : T.shapesOk = true) (hD : T.disjointOk 
   obtain ⟨r1, r2⟩ := seq_refines T hS hD (resolve root) u k hk inp hT fs.at
   refine ⟨s1.trans r1, ?_⟩
   rw [s2]; exact r2
+
+
+
+/-! ## last write wins, made explicit -/
+
+/-- the value of the last point update of `k` in the list, if any -/
+def lastWrite : List (Key × Val) → Key → Option Val
+  | [], _ => none
+  | kv :: t, k =>
+    match lastWrite t k with
+    | some v => some v
+    | none => if k = kv.1 then some kv.2 else none
+
+theorem applyPuts_lastWrite (l : List (Key × Val)) (m : KV) (k : Key) :
+    applyPuts l m k = match lastWrite l k with
+      | some v => some v
+      | none => m k := by
+  induction l generalizing m with
+  | nil => rfl
+  | cons kv t ih =>
+    simp only [applyPuts, lastWrite, ih]
+    cases lastWrite t k with
+    | some v => rfl
+    | none => simp only [putKV]; split <;> rfl
+
+theorem lastWrite_none_of_not_mem (l : List (Key × Val)) (k : Key) (h : k ∉ l.map Prod.fst) : lastWrite l k = none := by
+  induction l with
+  | nil => rfl
+  | cons kv t ih =>
+    simp only [List.map_cons, List.mem_cons, not_or] at h
+    simp [lastWrite, ih h.2, h.1]
+
+theorem applyPuts_not_mem (l : List (Key × Val)) (m : KV) (k : Key) (h : k ∉ l.map Prod.fst) :
+    applyPuts l m k = m k := by
+  rw [applyPuts_lastWrite, lastWrite_none_of_not_mem l k h]
+
+theorem applyPuts_isSome (l : List (Key × Val)) (m : KV) (k : Key) (h : (m k).isSome = true) :
+    (applyPuts l m k).isSome = true := by
+  rw [applyPuts_lastWrite]; cases lastWrite l k <;> simp [h]
+
+theorem applyPuts_snoc (l : List (Key × Val)) (m : KV) (k : Key) (v : Val) :
+    applyPuts (l ++ [(k, v)]) m k = some v := by
+  rw [applyPuts_append]; simp [applyPuts, putKV]
+
+/-! ## the keys an update addresses -/
+
+/-- every key the nested dictionary addresses, in iteration order -/
+def targets (u : UpdFn) (inp : UpdInput) : List Key :=
+  inp.flatMap fun e => e.inner.map fun it => ⟨u, u.normArgs e.args, it.1.map Arg.norm⟩
+
+theorem prefixKV_sub (u : UpdFn) (outer : List Arg) (items : List (List Arg × Rate)) :
+    ∀ kv ∈ (prefixKV u outer items).1, ∃ it ∈ items, kv.1 = it.1.map Arg.norm ∧ u.validate it.2 = .ok kv.2 := by
+  induction items with
+  | nil => intro kv h; simp [prefixKV] at h
+  | cons it rest ih =>
+    intro kv h
+    simp only [prefixKV] at h
+    cases hi : itemKV u outer it with
+    | error e => simp [hi] at h
+    | ok kv0 =>
+      simp only [hi, List.mem_cons] at h
+      rcases h with rfl | h
+      · refine ⟨it, List.mem_cons_self .., ?_⟩
+        unfold itemKV at hi
+        split at hi
+        · cases hi
+        · split at hi
+          · cases hi
+          · next v hv => cases hi; exact ⟨rfl, hv⟩
+      · obtain ⟨it', hm, h'⟩ := ih kv h
+        exact ⟨it', List.mem_cons_of_mem _ hm, h'⟩
+
+theorem prefixKV_complete (u : UpdFn) (outer : List Arg) (items : List (List Arg × Rate))
+    (h : (prefixKV u outer items).2 = none) :
+    (prefixKV u outer items).1.map Prod.fst = items.map fun it => it.1.map Arg.norm := by
+  induction items with
+  | nil => rfl
+  | cons it rest ih =>
+    simp only [prefixKV] at h ⊢
+    cases hi : itemKV u outer it with
+    | error e => simp [hi] at h
+    | ok kv0 =>
+      simp only [hi] at h ⊢
+      simp only [List.map_cons, ih h, List.cons.injEq, and_true]
+      unfold itemKV at hi
+      split at hi
+      · cases hi
+      · split at hi
+        · cases hi
+        · cases hi; rfl
+
+theorem entryPuts_sub (T : Tables) (u : UpdFn) (e : FileEntry) :
+    ∀ kv ∈ (entryPuts T u e).1, ∃ it ∈ e.inner,
+      kv.1 = ⟨u, u.normArgs e.args, it.1.map Arg.norm⟩ ∧ u.validate it.2 = .ok kv.2 := by
+  intro kv h
+  have key : ∀ kv ∈ keyed u (u.normArgs e.args) (prefixKV u e.args e.inner).1, ∃ it ∈ e.inner,
+      kv.1 = ⟨u, u.normArgs e.args, it.1.map Arg.norm⟩ ∧ u.validate it.2 = .ok kv.2 := by
+    intro kv h
+    simp only [keyed, List.mem_map] at h
+    obtain ⟨kv0, hm, rfl⟩ := h
+    obtain ⟨it, hit, h1, h2⟩ := prefixKV_sub u e.args e.inner kv0 hm
+    exact ⟨it, hit, by simp [h1], h2⟩
+  unfold entryPuts at h
+  split at h
+  · simp at h
+  · split at h
+    · simp at h
+    · split at h
+      · split at h
+        · simp at h
+        · exact key kv h
+      · exact key kv h
+
+/-- every point update of a call is one of the keys the call addresses, with the validated rate passed for it -/
+theorem updPuts_sub (T : Tables) (u : UpdFn) (inp : UpdInput) :
+    ∀ kv ∈ (updPuts T u inp).1, ∃ e ∈ inp, ∃ it ∈ e.inner,
+      kv.1 = ⟨u, u.normArgs e.args, it.1.map Arg.norm⟩ ∧ u.validate it.2 = .ok kv.2 := by
+  unfold updPuts
+  induction inp with
+  | nil => intro kv h; simp [seqPuts] at h
+  | cons e es ih =>
+    intro kv h
+    simp only [seqPuts] at h
+    have he := entryPuts_sub T u e
+    split at h
+    · simp only [List.mem_append] at h
+      rcases h with h | h
+      · obtain ⟨it, hit, hh⟩ := he kv h
+        exact ⟨e, List.mem_cons_self .., it, hit, hh⟩
+      · obtain ⟨e', he', hh⟩ := ih kv h
+        exact ⟨e', List.mem_cons_of_mem _ he', hh⟩
+    · obtain ⟨it, hit, hh⟩ := he kv h
+      exact ⟨e, List.mem_cons_self .., it, hit, hh⟩
+
+theorem updPuts_keys_sub (T : Tables) (u : UpdFn) (inp : UpdInput) :
+    ∀ k ∈ (updPuts T u inp).1.map Prod.fst, k ∈ targets u inp := by
+  intro k hk
+  simp only [List.mem_map] at hk
+  obtain ⟨kv, hm, rfl⟩ := hk
+  obtain ⟨e, he, it, hit, h1, _⟩ := updPuts_sub T u inp kv hm
+  simp only [targets, List.mem_flatMap, List.mem_map]
+  exact ⟨e, he, it, hit, h1.symm⟩
+
+theorem entryPuts_complete (T : Tables) (u : UpdFn) (e : FileEntry) (h : (entryPuts T u e).2 = none) :
+    (entryPuts T u e).1.map Prod.fst = e.inner.map fun it => ⟨u, u.normArgs e.args, it.1.map Arg.norm⟩ := by
+  have key : (prefixKV u e.args e.inner).2 = none →
+      (keyed u (u.normArgs e.args) (prefixKV u e.args e.inner).1).map Prod.fst
+        = e.inner.map fun it => ⟨u, u.normArgs e.args, it.1.map Arg.norm⟩ := by
+    intro h0
+    have := prefixKV_complete u e.args e.inner h0
+    simp only [keyed, List.map_map]
+    have h2 : ((prefixKV u e.args e.inner).1.map Prod.fst).map (fun i => Key.mk u (u.normArgs e.args) i)
+        = (e.inner.map fun it => it.1.map Arg.norm).map (fun i => Key.mk u (u.normArgs e.args) i) := by rw [this]
+    simpa [List.map_map, Function.comp_def] using h2
+  unfold entryPuts at h ⊢
+  split at h
+  · simp at h
+  · split at h
+    · simp at h
+    · split at h
+      · split at h
+        · simp at h
+        · next h0 => simp only [h0]; exact key h0
+      · exact key h
+
+/-- a call that is not rejected performs a point update for *every* key it addresses, in order -/
+theorem updPuts_complete (T : Tables) (u : UpdFn) (inp : UpdInput) (h : (updPuts T u inp).2 = none) :
+    (updPuts T u inp).1.map Prod.fst = targets u inp := by
+  unfold updPuts targets at *
+  induction inp with
+  | nil => rfl
+  | cons e es ih =>
+    simp only [seqPuts] at h ⊢
+    split at h
+    · next h0 =>
+      simp only [h0, List.map_append, List.flatMap_cons]
+      rw [entryPuts_complete T u e h0, ih h]
+    · simp at h
+
+
+
+/-! ## files outside the repository path are never touched -/
+
+theorem loopKey_read (u : UpdFn) (outer : List Arg) (path p : Path) (hp : p ≠ path) (items : List (List Arg × Rate)) :
+    ∀ (c : File) (fs : FS), (loopKey u outer path c items fs).1.read p = fs.read p := by
+  induction items with
+  | nil => intro c fs; rfl
+  | cons it rest ih =>
+    intro c fs
+    simp only [loopKey]
+    cases stepInner u outer c it with
+    | error e => rfl
+    | ok c' => simp only []; rw [ih, read_write]; simp [hp]
+
+theorem loopWhole_read (u : UpdFn) (outer : List Arg) (path p : Path) (hp : p ≠ path) (items : List (List Arg × Rate)) :
+    ∀ (fs : FS), (loopWhole u outer path items fs).1.read p = fs.read p := by
+  induction items with
+  | nil => intro fs; rfl
+  | cons it rest ih =>
+    intro fs
+    simp only [loopWhole]
+    cases stepInner u outer [] it with
+    | error e => rfl
+    | ok c' => simp only []; rw [ih, read_write]; simp [hp]
+
+theorem updateEntry_read (u : UpdFn) (tmpl : Option Template) (R : Path) (e : FileEntry) (fs : FS) (p : Path)
+    (hp : ¬ R <+: p) : (updateEntry u tmpl R e fs).1.read p = fs.read p := by
+  unfold updateEntry
+  cases u.precheck e.args with
+  | some err => rfl
+  | none =>
+    simp only []
+    cases tmpl.bind (·.inst (u.normArgs e.args)) with
+    | none => rfl
+    | some rel =>
+      have hne : p ≠ R ++ rel := by intro h; exact hp (h ▸ List.prefix_append R rel)
+      simp only []
+      cases u.pattern with
+      | perKey => exact loopKey_read u e.args _ p hne e.inner _ fs
+      | perFile =>
+        simp only []
+        cases foldFile u e.args ((fs.read (R ++ rel)).getD []) e.inner with
+        | error err => rfl
+        | ok c => simp only []; rw [read_write]; simp [hne]
+      | whole => exact loopWhole_read u e.args _ p hne e.inner fs
+
+theorem seqEntries_read (g : FileEntry → FS → Res) (p : Path) (h : ∀ e fs, (g e fs).1.read p = fs.read p)
+    (es : List FileEntry) : ∀ fs, (seqEntries g es fs).1.read p = fs.read p := by
+  induction es with
+  | nil => intro fs; rfl
+  | cons e es ih =>
+    intro fs
+    simp only [seqEntries]
+    rcases hg : g e fs with ⟨fs', o⟩
+    have := h e fs
+    rw [hg] at this
+    cases o with
+    | none => simp only []; rw [ih, this]
+    | some err => exact this
+
+/-- `update_x(…, root)` leaves every file that is not under `resolve root` exactly as it was -/
+theorem update_read (T : Tables) (u : UpdFn) (inp : UpdInput) (root : Option Path) (fs : FS) (p : Path)
+    (hp : ¬ resolve root <+: p) : (update T u inp root fs).1.read p = fs.read p :=
+  seqEntries_read _ p (fun e fs => updateEntry_read u _ _ e fs p hp) inp fs
+
+theorem add_read (T : Tables) (a : AddFn) (args : List Arg) (items : List (List Arg × Rate)) (root : Option Path)
+    (fs : FS) (p : Path) (hp : ¬ resolve root <+: p) : (add T a args items root fs).1.read p = fs.read p :=
+  seqEntries_read _ p (fun e fs => updateEntry_read _ _ _ e fs p hp) _ fs
+
+theorem installSeq_read (T : Tables) (root : Option Path) (p : Path) (hp : ¬ resolve root <+: p) :
+    ∀ (calls : List (UpdFn × Bool)) (inps : List UpdInput) (fs : FS), (∀ c ∈ calls, c.2 = true) →
+      (installSeq T calls inps root fs).1.read p = fs.read p := by
+  intro calls
+  induction calls with
+  | nil => intro inps fs _; rfl
+  | cons c cs ih =>
+    intro inps fs hall
+    obtain ⟨u, passes⟩ := c
+    cases inps with
+    | nil => rfl
+    | cons inp inps =>
+      have hpass : passes = true := hall (u, passes) (List.mem_cons_self ..)
+      subst hpass
+      simp only [installSeq, if_true]
+      have h1 := update_read T u inp root fs p hp
+      rcases hu : update T u inp root fs with ⟨fs', o⟩
+      rw [hu] at h1
+      cases o with
+      | none => simp only []; rw [ih inps fs' (fun c h => hall c (List.mem_cons_of_mem _ h)), h1]
+      | some err => exact h1
+
+/-! ## add_* and install_* in terms of update_* -/
+
+theorem addMatches_of (T : Tables) (h : T.addMatches = true) (a : AddFn) :
+    T.famOfAdd a = a.own ∧ T.tmplOfAdd a = T.tmplOfUpd a.own ∧ T.addFixed a = a.ownFixed := by
+  have := List.all_eq_true.mp h a (mem_allAdd a)
+  simpa [Bool.and_eq_true, beq_iff_eq, and_assoc] using this
+
+theorem getMatches_of (T : Tables) (h : T.getMatches = true) (g : GetFn) :
+    T.getReads g = T.tmplOfUpd g.own ∧ T.getFixed g = g.ownFixed := by
+  have := List.all_eq_true.mp h g (mem_allGet g)
+  simpa [Bool.and_eq_true, beq_iff_eq] using this
+
+theorem rootPassed_of (T : Tables) (h : T.rootPassed = true) (i : InstallFn) : ∀ c ∈ T.installCalls i, c.2 = true := by
+  simp only [Tables.rootPassed, Bool.and_eq_true] at h
+  exact List.all_eq_true.mp (List.all_eq_true.mp h.1 i (mem_allInstall i))
+
+/-- `add_matches_update` (generic half): if the tables say so, `add_y(args, rate, root)` *is* `update_<own family>` of
+the dictionary `wrap` builds -/
+theorem add_eq_update (T : Tables) (h : T.addMatches = true) (a : AddFn) (args : List Arg)
+    (items : List (List Arg × Rate)) (root : Option Path) (fs : FS) :
+    add T a args items root fs = update T a.own (a.wrap T args items) root fs := by
+  obtain ⟨h1, h2, _⟩ := addMatches_of T h a
+  unfold add update
+  rw [h1, h2]
+
+/-- all `update_*` calls of a front-end receive the caller's root -/
+def installAll (T : Tables) : List (UpdFn × Bool) → List UpdInput → Option Path → FS → Res
+  | (u, _) :: cs, inp :: inps, root, fs =>
+    match update T u inp root fs with
+    | (fs', none) => installAll T cs inps root fs'
+    | r => r
+  | _, _, _, fs => (fs, none)
+
+theorem installSeq_eq (T : Tables) (root : Option Path) :
+    ∀ (calls : List (UpdFn × Bool)) (inps : List UpdInput) (fs : FS), (∀ c ∈ calls, c.2 = true) →
+      installSeq T calls inps root fs = installAll T calls inps root fs := by
+  intro calls
+  induction calls with
+  | nil => intro inps fs _; rfl
+  | cons c cs ih =>
+    intro inps fs hall
+    obtain ⟨u, passes⟩ := c
+    cases inps with
+    | nil => rfl
+    | cons inp inps =>
+      have hpass : passes = true := hall (u, passes) (List.mem_cons_self ..)
+      subst hpass
+      simp only [installSeq, installAll, if_true]
+      rcases update T u inp root fs with ⟨fs', o⟩
+      cases o with
+      | none => exact ih inps fs' (fun c h => hall c (List.mem_cons_of_mem _ h))
+      | some err => rfl
+
+
+
+/-! ## the read path -/
+
+/-- the key a `get_z(args…)` call asks for -/
+def getKey (g : GetFn) (args : List Arg) : Key :=
+  let args' := match g.ownFixed with
+    | some c => Arg.str c :: args
+    | none => args
+  ⟨g.own, (args'.take g.own.arity).map Arg.norm, (args'.drop g.own.arity).map Arg.norm⟩
+
+/-- `get_z` unfolded once, in terms of the location of the requested key -/
+theorem get_eq (T : Tables) (h : T.getMatches = true) (g : GetFn) (args : List Arg) (root : Option Path) (fs : FS) :
+    get T g args root fs =
+      match (getKey g args).loc T (resolve root) with
+      | none => .error .attributeError
+      | some l =>
+        match fs.read l.1 with
+        | none => .error .runtimeError
+        | some file =>
+          match g.own.getKind with
+          | .keyed =>
+            match alookup l.2 file with
+            | some v => .ok [(l.2, v)]
+            | none => .error .runtimeError
+          | .prefixed =>
+            match file.filter (fun kv => kv.1.head? == l.2.head?) with
+            | [] => .error .runtimeError
+            | r => .ok r := by
+  obtain ⟨h1, h2⟩ := getMatches_of T h g
+  unfold get getKey Key.loc
+  simp only [h1, h2, ikeyOf]
+  cases (T.tmplOfUpd g.own).bind (·.inst ((List.take g.own.arity (match g.ownFixed with
+      | some c => Arg.str c :: args
+      | none => args)).map Arg.norm)) <;> rfl
+
+/-- getters of the keyed families return the value of the key → value map at the requested key, RuntimeError when it
+has none (AttributeError when an argument has no `.symbol`) -/
+theorem get_keyed (T : Tables) (h : T.getMatches = true) (g : GetFn) (hk : g.own.getKind = .keyed) (args : List Arg)
+    (root : Option Path) (fs : FS) :
+    get T g args root fs =
+      match (getKey g args).loc T (resolve root) with
+      | none => .error .attributeError
+      | some _ =>
+        match absView T (resolve root) fs.at (getKey g args) with
+        | some v => .ok [(renderIKey (getKey g args).inner, v)]
+        | none => .error .runtimeError := by
+  rw [get_eq T h]
+  unfold absView
+  cases hl : (getKey g args).loc T (resolve root) with
+  | none => rfl
+  | some l =>
+    have hi : l.2 = renderIKey (getKey g args).inner := by
+      simp only [Key.loc, Option.map_eq_some_iff] at hl
+      obtain ⟨_, _, rfl⟩ := hl; rfl
+    simp only [hk, FS.at]
+    cases fs.read l.1 with
+    | none => rfl
+    | some file =>
+      simp only [Option.bind_some]
+      cases alookup l.2 file <;> simp [hi]
+
+theorem alookup_filter {ν : Type} (P : IKey → Bool) (l : List (IKey × ν)) (k : IKey) (hk : P k = true) :
+    alookup k (l.filter fun kv => P kv.1) = alookup k l := by
+  induction l with
+  | nil => rfl
+  | cons hd t ih =>
+    obtain ⟨a, b⟩ := hd
+    by_cases ha : a = k
+    · subst ha; simp [List.filter, hk, alookup]
+    · by_cases hp : P a = true
+      · simp [List.filter, hp, alookup, ha, ih]
+      · simp [List.filter, hp, alookup, ha, ih]
+
+theorem alookup_isSome_of_mem {ν : Type} (l : List (IKey × ν)) (kv : IKey × ν) (h : kv ∈ l) :
+    (alookup kv.1 l).isSome = true := by
+  induction l with
+  | nil => simp at h
+  | cons hd t ih =>
+    obtain ⟨a, b⟩ := hd
+    by_cases ha : a = kv.1
+    · simp [alookup, ha]
+    · simp only [List.mem_cons] at h
+      rcases h with rfl | h
+      · exact absurd rfl ha
+      · simp [alookup, ha, ih h]
+
+/-- the beam-CX getter returns every stored metastable of the transition: looking an inner key of that transition up
+in its result is looking it up in the repository; it raises RuntimeError exactly when no inner key of the transition
+is stored -/
+theorem get_prefixed (T : Tables) (h : T.getMatches = true) (g : GetFn) (hk : g.own.getKind = .prefixed)
+    (args : List Arg) (root : Option Path) (fs : FS) (l : Path × IKey)
+    (hl : (getKey g args).loc T (resolve root) = some l) :
+    (∀ r, get T g args root fs = .ok r → ∀ ik : IKey, ik.head? = l.2.head? → alookup ik r = fs.at l.1 ik) ∧
+    (get T g args root fs = .error .runtimeError ↔ ∀ ik : IKey, ik.head? = l.2.head? → fs.at l.1 ik = none) := by
+  rw [get_eq T h]
+  simp only [hl, hk, FS.at]
+  cases fs.read l.1 with
+  | none => simp
+  | some file =>
+    simp only [Option.bind_some]
+    have hP : ∀ ik : IKey, ik.head? = l.2.head? → (fun ik : IKey => ik.head? == l.2.head?) ik = true := by
+      intro ik hik; simp [hik]
+    cases hfl : file.filter (fun kv => (fun ik : IKey => ik.head? == l.2.head?) kv.1) with
+    | nil =>
+      simp only [] at hfl
+      refine ⟨(by intro r hr; cases hr), ?_⟩
+      simp only [true_iff]
+      intro ik hik
+      rw [← alookup_filter (fun ik : IKey => ik.head? == l.2.head?) file ik (hP ik hik), hfl]; rfl
+    | cons x xs =>
+      simp only [] at hfl
+      constructor
+      · intro r hr ik hik
+        cases hr
+        rw [← hfl]; exact alookup_filter (fun ik : IKey => ik.head? == l.2.head?) file ik (hP ik hik)
+      · simp only [reduceCtorEq, false_iff]
+        intro hall
+        have hx : x ∈ file.filter (fun kv => kv.1.head? == l.2.head?) := by rw [hfl]; exact List.mem_cons_self ..
+        have hx' := List.mem_filter.mp hx
+        have := alookup_isSome_of_mem file x hx'.1
+        rw [hall x.1 (by simpa using hx'.2)] at this
+        simp at this
+
+/-! ## transition keys -/
+
+theorem split_unique {α : Type} (x : α) : ∀ (l₁ l₂ r₁ r₂ : List α), x ∉ l₁ → x ∉ l₂ →
+    l₁ ++ x :: r₁ = l₂ ++ x :: r₂ → l₁ = l₂ ∧ r₁ = r₂ := by
+  intro l₁
+  induction l₁ with
+  | nil =>
+    intro l₂ r₁ r₂ _ h2 h
+    cases l₂ with
+    | nil => simpa using h
+    | cons y t =>
+      simp only [List.nil_append, List.cons_append, List.cons.injEq] at h
+      exact absurd (h.1 ▸ List.mem_cons_self ..) h2
+  | cons a t ih =>
+    intro l₂ r₁ r₂ h1 h2 h
+    cases l₂ with
+    | nil =>
+      simp only [List.nil_append, List.cons_append, List.cons.injEq] at h
+      exact absurd (h.1 ▸ List.mem_cons_self ..) h1
+    | cons b s =>
+      simp only [List.cons_append, List.cons.injEq] at h
+      obtain ⟨e1, e2⟩ := ih s r₁ r₂ (fun m => h1 (List.mem_cons_of_mem _ m)) (fun m => h2 (List.mem_cons_of_mem _ m)) h.2
+      exact ⟨by rw [h.1, e1], e2⟩
+
+theorem sep_toList : " -> ".toList = [' ', '-', '>', ' '] := by decide
+
+theorem join_inj (a a' b b' : String) (ha : '>' ∉ a.toList) (ha' : '>' ∉ a'.toList)
+    (h : a ++ " -> " ++ b = a' ++ " -> " ++ b') : a = a' ∧ b = b' := by
+  have hl := congrArg String.toList h
+  simp only [String.toList_append, sep_toList, List.append_assoc] at hl
+  have e : ∀ (x y : List Char), x ++ ([' ', '-', '>', ' '] ++ y) = (x ++ [' ', '-']) ++ '>' :: (' ' :: y) := by
+    intro x y; simp
+  rw [e, e] at hl
+  have n1 : '>' ∉ a.toList ++ [' ', '-'] := by simp [ha]
+  have n2 : '>' ∉ a'.toList ++ [' ', '-'] := by simp [ha']
+  obtain ⟨e1, e2⟩ := split_unique '>' _ _ _ _ n1 n2 hl
+  have e1' := List.append_cancel_right e1
+  simp only [List.cons.injEq, true_and] at e2
+  exact ⟨String.toList_injective e1', String.toList_injective e2⟩
 
 end Cherab.Repository
